@@ -44,7 +44,7 @@ ASSUMPTIONS = [
     "inputs are well-formed trees (id == position, root 0), any numbering",
     "order of the returned branches / paths / tips / furcations is unspecified",
 ]
-REQUIRED = ["trees_of_tens_of_thousands_of_nodes", "decompositions_from_inside_a_traversal", "branches_checked", "paths_checked", "tips_checked", "furcations_checked",
+REQUIRED = ["trees_of_tens_of_thousands_of_nodes", "branch_tree_from_data_frame", "decompositions_from_inside_a_traversal", "branches_checked", "paths_checked", "tips_checked", "furcations_checked",
             "node_predicates_checked", "node_branch_checked", "branch_tree_checked",
             "branch_tree_memory_probed", "longest_path_checked", "root_one_child_trees",
             "derived_trees_checked", "negative_position_handles", "relinked_through_callers_array",
@@ -313,12 +313,27 @@ def _check(ctx, case, tree, spec):
         # per node view
         for i in range(len(tags)):
             starts = sorted(tuple(int(t) for t in b.get_ndata("tag"))
-                            for b in bt.branches.get(i, []))
+                            for b in (bt.get_origin_node_branches(i) if i in bt.branches else []))
             want = sorted(tuple(int(spec["tag"][u]) for u in b) for b in exp_br
                           if int(spec["tag"][b[0]]) == int(tags[i]))
             if starts != want:
                 return ctx.violation("branch-tree-memory", f"{via}: branches stored at node {i} "
                                                            f"are not those starting there", case)
+        if via == "ToBranchTree" and n <= 300:
+            # the table-level constructor: the branch tree of the tree a table describes
+            import pandas as pd
+
+            df_ = pd.DataFrame({k: np.array(tree.ndata[k]) for k in ("id", "type", "x", "y", "z", "r",
+                                                                     "pid")})
+            bt2 = BranchTree.from_data_frame(df_)
+            ctx.count("branch_tree_from_data_frame")
+            if bt2.number_of_nodes() != len(crit) or sorted(
+                    tuple(np.round(b.xyzr().astype(np.float64), 6).ravel())
+                    for b in bt2.get_origin_branches()) != sorted(
+                    tuple(np.round(np.stack([spec[k][list(b)] for k in "xyzr"], axis=1)
+                                   .astype(np.float64), 6).ravel()) for b in exp_br):
+                return ctx.violation("branch-tree-nodes", "BranchTree.from_data_frame: not the branch "
+                                                          "tree of the table's tree", case)
         if via == "from_tree":
             # "remembers each original branch's points": later edits of the source must not show
             for k in "xyz":
